@@ -41,7 +41,7 @@ SD_NBYTES = [0]      # size of the fixed SynthDef's bytes, reported by the runne
 CONV_ACTION = {'after': 'addAfter', 'before': 'addBefore', 'head': 'addToHead', 'tail': 'addToTail', 'replace': 'addReplace'}
 
 HEADER = ('From Coq Require Import ZArith QArith List String Bool. Import ListNotations.\n'
-          'Require Import SC3.lib.PyNum SC3.model.ProtoGrammar SC3.model.Proto.\n'
+          'Require Import SC3.lib.PyNum SC3.model.ProtoGrammar SC3.model.Proto SC3.proofs.C17_conform SC3.proofs.C17_run.\n'
           'Open Scope string_scope. Open Scope Z_scope.\n')
 
 
@@ -404,7 +404,7 @@ def monitors(h, out, default_group=1):
             elif a[0] == 'buf' and a[1] is not None:
                 buf_blocks.add((a[1], a[2]))
             elif a[0] in ('cbus', 'abus') and a[1] is not None:
-                bus_blocks.add((a[1], a[2]))
+                bus_blocks.add((a[0], a[1], a[2]))
         if o in ('synth', 'group', 's_reorder') and op['target']['t'] == 'int':
             node_known.add(op['target']['x'])
         if op.get('compl') and op['compl']['k'] == 'msg':
@@ -413,6 +413,11 @@ def monitors(h, out, default_group=1):
                     node_known.add(a['x']); user_bufs.add(a['x'])
         msgs = [m for ev in st['ev'] for m in event_msgs(ev)]
         live_before = set(b for b in buf_objs.values() if b is not None)
+        bus_blocks_before = set(bus_blocks)
+        if o in ('n_map', 'n_mapa', 'n_mapn', 'n_mapan'):
+            user_buses.update(a['x'] for a in op['args'] if a['v'] == 'i')
+        if o == 'bus_new' and op.get('index') is not None:
+            user_buses.update(range(op['index'], op['index'] + op['channels']))
         blocks_before = set(buf_blocks)
         # what this op creates (buffers)
         if o in ('b_new', 'b_new_read', 'b_new_read_channel', 'b_new_cue') and st['exc'] is None:
@@ -504,11 +509,11 @@ def monitors(h, out, default_group=1):
         if o == 'bus_free' and st['exc'] is None:
             u = op['u']
             if bus_objs.get(u) is not None:
-                blk = [b for b in bus_blocks if b[0] == bus_objs[u]]
+                kind = 'abus' if bus_audio[u] else 'cbus'
+                blk = [b for b in bus_blocks if b[0] == kind and b[1] == bus_objs[u]]
                 for b in blk:
-                    kind = 'abus' if bus_audio[u] else 'cbus'
-                    if [kind, b[0], b[1]] not in st['free']:
-                        bad.append((None, 'op %d: Bus.free() did not return block %s to the %s allocator' % (i, b, kind)))
+                    if [kind, b[1], b[2]] not in st['free']:
+                        bad.append((None, 'op %d: Bus.free() did not return block %s to the %s allocator' % (i, b[1:], kind)))
                     bus_blocks.discard(b)
                 bus_objs[u] = None
             elif st['free']:
@@ -560,6 +565,9 @@ def monitors(h, out, default_group=1):
             for kind, x in scproto.ids(m):
                 if kind == 'node' and x not in node_known:
                     bad.append((None, 'op %d (%s): %s mentions node id %s which the client never allocated' % (i, o, m[0], x)))
+                if kind == 'bus' and x != -1:
+                    if not (any(b[1] <= x < b[1] + b[2] for b in bus_blocks | bus_blocks_before) or x in user_buses):
+                        bad.append((None, 'op %d (%s): %s mentions bus %s outside every bus block the client allocated' % (i, o, m[0], x)))
                 if kind == 'buf':
                     owned = x in live_before or x in created or x in user_bufs or \
                         any(b[0] <= x < b[0] + b[1] for b in blocks_before | buf_blocks)
@@ -817,6 +825,18 @@ def correspond(ctx):
     body = BODY_DEFS + '\nEval vm_compute in bad_idx (fun c => agrees repaired c && observed_conform c) cases.'
     bad, errs = fw.check_shards(ctx, 'hist', HEADER, items, body, shard=60)
     c.evaluations = len(items)
+    # how many of the valid histories lie inside the domain of the theorems (wf_ops of proofs/C17_run.v)
+    vitems = [it for it, i in zip(items, idx) if hs[i]['cls'] == 'valid']
+    vidx = [i for i in idx if hs[i]['cls'] == 'valid']
+    dbody = ('\nEval vm_compute in bad_idx (fun c : list op * list (list wev * Z) * (list (Z*Z) * list (Z*Z) * list (Z*Z)) * bool => '
+             'wf_ops 3 st0 (fst (fst (fst c)))) cases.')
+    outside, derrs = fw.check_shards(ctx, 'dom', HEADER, vitems, dbody, shard=60)
+    c.count('domain:valid-histories-inside-wf_ops', len(vitems) - len(outside))
+    c.count('domain:valid-histories-outside-wf_ops', len(outside))
+    if outside:
+        c.notes.append('valid histories outside the theorem domain wf_ops (tested, not covered by emitted_conform): e.g. %s' % json.dumps(hs[vidx[outside[0]]]['ops'])[:600])
+    for e in derrs:
+        c.notes.append('domain evaluation failed: ' + e[-300:])
     c.rule = ('op histories over Synth/Group/ParGroup/Buffer/Bus/server helpers and nested bind() blocks (with exceptions leaving 1..3 '
               'blocks) run on the real library in NRT mode; every op compared: messages reaching the OSC interface (wire types after the '
               'library encoder), error class, final allocator blocks; model = Proto.run repaired; every captured message of a valid '
